@@ -69,9 +69,34 @@ def impl_row(case):
     return out
 
 
+_SHADOW = None
+
+
+def shadow_extract():
+    """extract_dict_columns of the working tree's compiled.pyx, de-cythonised (None when unavailable)."""
+    global _SHADOW
+    if _SHADOW is None:
+        try:
+            from .. import core, pyxshadow
+
+            funcs, _ = pyxshadow.load(core.REPO)
+            _SHADOW = (funcs.get("extract_dict_columns"),)
+        except Exception:
+            _SHADOW = (None,)
+    return _SHADOW[0]
+
+
 def oracle_row(case, out):
     fields, d, dflt = case["fields"], case["dict"], case["default"]
     want = [d.get(f, None) for f in fields]
+    sh = shadow_extract()
+    if sh is not None:
+        try:
+            got = canon(sh(dict(d), tuple(fields)))
+        except Exception as e:
+            return "the field extractor's source (compiled.pyx, shadow execution) raised %s" % type(e).__name__
+        if not wire.same(got, want):
+            return "the field extractor's source (compiled.pyx, shadow execution) does not put each field's value at its position"
     if not wire.same(out["row"], want):
         return "a field's value is not at that field's position (or absent field not null / extra key not ignored)"
     if len(out["row"]) != len(fields):
